@@ -260,7 +260,7 @@ func checkC01(cx *Ctx, r *Report) {
 			for _, st := range fx.info(g).stores {
 				if fa, ok := st.Addr.(*ssa.FieldAddr); ok {
 					o := fieldOwner(fa.X.Type())
-					fn := fieldVar(fa.X.Type(), fa.Field).Name()
+					fn := fname(fieldVar(fa.X.Type(), fa.Field))
 					if o == "saml.AssertionType" || o == "samlp.ResponseType" && (fn == "Assertion" || fn == "Signature" || fn == "EncryptedAssertion") {
 						bad = "writes " + o + "." + fn + " at " + w.InstrPos(st)
 					}
@@ -284,7 +284,7 @@ func checkC01(cx *Ctx, r *Report) {
 			if !ok || fieldOwner(fa.X.Type()) != "provider.Response" {
 				continue
 			}
-			name := fieldVar(fa.X.Type(), fa.Field).Name()
+			name := fname(fieldVar(fa.X.Type(), fa.Field))
 			if name != "Signature" {
 				continue
 			}
